@@ -300,6 +300,7 @@ func CheckC12(c *Ctx) {
 	run.Technique = "typed-AST structure lints on the worker closure of asset.Sync.Run (start-date rule, fault isolation, error reporting, WaitGroup domination, single job channel) + SSA shared-write analysis rooted at the go statement started in a loop + lock-consistency lint on InMemoryRepository"
 	run.Explanation = "The resulting repository contents and idempotence depend on repository semantics and are NOT decided. Decided structurally on the worker closure of Sync.Run: the start date is LastDate+1 day when the target has the asset and the default start date otherwise, and that value is what is passed to source.GetSince, whose result is what is appended to the target; every error branch inside the per-asset loop records the failure and continues with the next asset (no return/break: one failing asset does not stop the others), and Run returns a non-nil error iff a failure was recorded; wg.Wait() precedes the final return; all assets flow through one channel consumed by all workers. The SSA shared-write analysis shows that no worker writes memory shared with the other workers without synchronisation (the failure flag; the target repository through the Repository interface, resolved by CHA), and every method of InMemoryRepository touches its map under the mutex."
 	run.Trusted = []string{"go/types", "go/ssa + CHA (x/tools v0.29.0)", "sync/atomic and sync.Mutex semantics"}
+	c.syncCommandWiring()
 	fi := c.fn("asset", "Sync", "Run")
 	if fi == nil {
 		return
@@ -933,5 +934,157 @@ func unguardedSliceIndexes(info *types.Info, body *ast.BlockStmt) []indexSite {
 		out = append(out, indexSite{text: types.ExprString(ix), pos: ix.Pos(), guarded: guarded})
 		return true
 	})
+	return out
+}
+
+// syncCommandWiring: the indicator-sync command hands Sync the assets named on the command line
+// or, when there are none, the assets of the SOURCE repository. Decided structurally in main: the
+// variable assigned to sync.Assets is the one that receives source.Assets() inside the
+// `len(...) == 0` branch, and no inner `:=` shadows a local that is used after the inner block
+// (the classic way such a hand-over is lost while everything still compiles).
+func (c *Ctx) syncCommandWiring() {
+	run := c.Run
+	fi := c.fn("cmd/indicator-sync", "", "main")
+	if fi == nil {
+		return
+	}
+	info := fi.Pkg.TypesInfo
+	site := "cmd/indicator-sync.main"
+	// (1) shadowing
+	for _, sh := range shadowedLocals(info, fi.Decl) {
+		run.Oblige(false)
+		c.violate("sync/command", site, "shadowed "+sh.name, sh.pos, "`"+sh.name+" :=` in an inner block declares a new variable; the outer `"+sh.name+"`, which is used afterwards, keeps its old value")
+	}
+	// (2) the hand-over
+	var assetsObj types.Object
+	ast.Inspect(fi.Decl.Body, func(n ast.Node) bool {
+		as, ok := n.(*ast.AssignStmt)
+		if !ok || len(as.Lhs) != 1 || len(as.Rhs) != 1 {
+			return true
+		}
+		if sel, ok := as.Lhs[0].(*ast.SelectorExpr); ok && sel.Sel.Name == "Assets" {
+			if id, ok := as.Rhs[0].(*ast.Ident); ok {
+				assetsObj = info.ObjectOf(id)
+			}
+		}
+		return true
+	})
+	// the source repository is the first argument of sync.Run
+	var sourceObj types.Object
+	ast.Inspect(fi.Decl.Body, func(n ast.Node) bool {
+		call, isCall := n.(*ast.CallExpr)
+		if !isCall || len(call.Args) < 2 {
+			return true
+		}
+		if fn := callee(info, call); fn != nil && fn.Name() == "Run" && strings.HasSuffix(fn.FullName(), "asset.Sync).Run") {
+			if id, isID := call.Args[0].(*ast.Ident); isID {
+				sourceObj = info.ObjectOf(id)
+			}
+		}
+		return true
+	})
+	ok := false
+	if assetsObj != nil {
+		ast.Inspect(fi.Decl.Body, func(n ast.Node) bool {
+			is, isIf := n.(*ast.IfStmt)
+			if !isIf {
+				return true
+			}
+			// if len(assets) == 0 { assets, err = source.Assets() ... }
+			guard := false
+			ast.Inspect(is.Cond, func(m ast.Node) bool {
+				if call, isCall := m.(*ast.CallExpr); isCall && len(call.Args) == 1 {
+					if id, isID := call.Fun.(*ast.Ident); isID && id.Name == "len" {
+						if a, isA := call.Args[0].(*ast.Ident); isA && info.ObjectOf(a) == assetsObj {
+							guard = true
+						}
+					}
+				}
+				return true
+			})
+			if !guard {
+				return true
+			}
+			for _, st := range is.Body.List {
+				as, isAs := st.(*ast.AssignStmt)
+				if !isAs || len(as.Rhs) != 1 || len(as.Lhs) < 1 {
+					continue
+				}
+				call, isCall := as.Rhs[0].(*ast.CallExpr)
+				if !isCall {
+					continue
+				}
+				sel, isSel := call.Fun.(*ast.SelectorExpr)
+				if !isSel || sel.Sel.Name != "Assets" {
+					continue
+				}
+				recv, isID := sel.X.(*ast.Ident)
+				if !isID || sourceObj == nil || info.ObjectOf(recv) != sourceObj {
+					continue
+				}
+				if id, isLID := as.Lhs[0].(*ast.Ident); isLID && info.ObjectOf(id) == assetsObj {
+					ok = true
+				}
+			}
+			return true
+		})
+	}
+	run.Count("sync_command_wiring", 1)
+	run.Oblige(ok)
+	if !ok {
+		c.violate("sync/command", site, "asset list", fi.Decl.Pos(), "the variable handed to sync.Assets does not receive source.Assets() when no asset is named on the command line: Sync falls back to the target's assets and never creates the source's other assets")
+	}
+	run.Floor("sync_command_wiring", 1)
+}
+
+type shadow struct {
+	name string
+	pos  token.Pos
+}
+
+// shadowedLocals: `x :=` inside a nested block of fd where x also names a local variable of an
+// enclosing block of the same function that is still used after the nested block ends.
+func shadowedLocals(info *types.Info, fd *ast.FuncDecl) []shadow {
+	var out []shadow
+	ast.Inspect(fd.Body, func(n ast.Node) bool {
+		as, ok := n.(*ast.AssignStmt)
+		if !ok || as.Tok != token.DEFINE {
+			return true
+		}
+		for _, l := range as.Lhs {
+			id, ok := l.(*ast.Ident)
+			if !ok || id.Name == "_" {
+				continue
+			}
+			obj := info.Defs[id]
+			if obj == nil {
+				continue // reuses an existing variable of this scope
+			}
+			inner := obj.Parent()
+			if inner == nil || inner.Parent() == nil {
+				continue
+			}
+			_, outer := inner.Parent().LookupParent(id.Name, id.Pos())
+			ov, isVar := outer.(*types.Var)
+			if !isVar || ov.Pos() < fd.Pos() || ov.Pos() > fd.End() {
+				continue // not a local of this function
+			}
+			if !types.Identical(ov.Type(), obj.Type()) {
+				continue
+			}
+			// is the outer variable used after the inner scope ends?
+			usedAfter := false
+			for uid, uo := range info.Uses {
+				if uo == outer && uid.Pos() > inner.End() {
+					usedAfter = true
+				}
+			}
+			if usedAfter {
+				out = append(out, shadow{id.Name, id.Pos()})
+			}
+		}
+		return true
+	})
+	sort.Slice(out, func(i, j int) bool { return out[i].pos < out[j].pos })
 	return out
 }
